@@ -146,6 +146,18 @@ Theorem no_dangling_if_complete : forall rf (dbg : bool) (req : N -> bool) (unit
     (strict_sorted (section_offsets units) -> map fst out = S).
 Proof. exact filtered_conversion_ok. Qed.
 
+(* The expected column of stream c19.sites: with the all-references view conv_refs (the repaired filter)
+   the filtered conversion succeeds whenever the unfiltered one does, for every carrier. *)
+Theorem complete_filter_never_fails : forall (dbg : bool) (req : N -> bool) (units : list unitd),
+  wf_offsets units -> wf_layout units ->
+  (exists out0, convert_all units = Ok out0) ->
+  exists S out,
+    reserved conv_refs dbg req units = Ok S /\
+    convert_filtered conv_refs dbg req units = Ok out /\
+    (forall x, In x (map fst out) <-> In x S) /\
+    (strict_sorted (section_offsets units) -> map fst out = S).
+Proof. exact complete_filter_ok. Qed.
+
 (* FULL STATEMENT of the property's "never fails for a missing reference" (fails for the code as it is):
      forall dbg req units, wf_offsets units -> wf_layout units ->
        (exists out0, convert_all units = Ok out0) ->
@@ -243,6 +255,39 @@ Example tags_ex :
   has_die_back_edge 13 false = true /\ has_die_back_edge 19 false = false /\
   has_die_back_edge 46 false = false /\ has_die_back_edge 46 true = true /\ has_die_back_edge 16649 true = true.
 Proof. vm_compute. repeat split. Qed.
+
+(* the hypotheses of no_dangling hold for ex_forest *)
+Example no_dangling_hyps_ex :
+  (forall u, In u ex_forest -> 0 < u_hdr u) /\
+  (forall u e par s, occurs ex_forest u e par -> In s (e_sites e) -> site_covered s = true).
+Proof.
+  split.
+  - intros u [<-|[]]. reflexivity.
+  - intros u e par s [[<-|[]] Hin] Hs. cbn in Hin.
+    repeat (destruct Hin as [H|Hin];
+            [inversion H; subst; cbn in Hs; repeat (destruct Hs as [<-|Hs]; [reflexivity|]); destruct Hs|]).
+    destruct Hin.
+Qed.
+
+(* two units, a cross-unit DW_FORM_ref_addr reference into a namespace of the second unit: the slices
+   handed to reserve_unit and the DIEs that come out *)
+Definition ex2_var : entry :=
+  {| e_off := 21; e_tag := 52; e_decl := false; e_sites := [ {| s_car := CAttrInfo; s_val := 131 |} ] |}.
+Definition ex2_ns : entry := {| e_off := 21; e_tag := 57; e_decl := false; e_sites := [] |}.
+Definition ex2_struct : entry := {| e_off := 31; e_tag := 19; e_decl := false; e_sites := [] |}.
+Definition ex2_units : list unitd :=
+  [ {| u_off := 0; u_hdr := 11; u_len := 30; u_kids := [ Node ex2_var [] ] |};
+    {| u_off := 100; u_hdr := 11; u_len := 40; u_kids := [ Node ex2_ns [ Node ex2_struct [] ] ] |} ].
+Example slices_ex :
+  reserved filter_refs true (fun x => x =? 21) ex2_units = Ok [21; 121; 131] /\
+  slices true ex2_units [21; 121; 131] = Ok [[21]; [121; 131]] /\
+  convert_filtered filter_refs true (fun x => x =? 21) ex2_units = Ok [(21, 11); (121, 111); (131, 121)].
+Proof. repeat split; vm_compute; reflexivity. Qed.
+
+Example covered_ex : site_covered {| s_car := CLoc LocLive 0 OpCall; s_val := 21 |} = true /\
+                     site_covered {| s_car := CExpr 1 OpCall; s_val := 21 |} = false /\
+                     site_covered {| s_car := CLoc LocEmpty 0 OpCall; s_val := 21 |} = false.
+Proof. repeat split. Qed.
 
 (* pins *)
 Check worklist_correct : forall d : deps,
